@@ -50,6 +50,10 @@ func main() {
 			fmt.Println(err)
 			os.Exit(2)
 		}
+		if *dump == "@fields" {
+			dumpFields(p)
+			return
+		}
 		dumpFunc(p, *dump)
 		return
 	}
